@@ -403,9 +403,12 @@ nni_msg_pull_up(nni_msg *m)
 	}
 
 	// At this point, we have a unique instance of the message.
-	// We also know that we have sufficient space in the message,
-	// so this insert operation cannot fail.
-	nni_msg_insert(m, nni_msg_header(m), nni_msg_header_len(m));
+	// There is enough total room, but the insert may still have to
+	// regrow the chunk (when the room is not in front of the data),
+	// and that can fail.
+	if (nni_msg_insert(m, nni_msg_header(m), nni_msg_header_len(m)) != 0) {
+		return (NULL);
+	}
 	nni_msg_header_clear(m);
 	return (m);
 }
